@@ -128,17 +128,22 @@ TCWSChars == {"sp", "tb", "nl"}
 TCIsWS(c, dc) == c \in TCWSChars \/ (c = "dl" /\ dc \in {"tab", "space"})
 
 \* decimal text of the symbolic number tokens (what printf would produce, in miniature:
-\* an optional sign and one or more number characters; distinct tokens, distinct texts)
-TCNumText == [min |-> <<"-", "9">>, m1 |-> <<"-", "1">>, z |-> <<"0">>, p1 |-> <<"1">>, max |-> <<"9">>,
+\* an optional sign and one or more number characters; distinct tokens, distinct texts;
+\* max is "9" and min is "-10", one more in magnitude, as in two's complement)
+TCNumText == [min |-> <<"-", "1", "0">>, m1 |-> <<"-", "1">>, z |-> <<"0">>, p1 |-> <<"1">>, max |-> <<"9">>,
               nan |-> <<"n", "a", "n">>, pinf |-> <<"i", "n", "f">>, ninf |-> <<"-", "i", "n", "f">>,
               pz |-> <<"0">>, nz |-> <<"-", "0">>,
               fa |-> <<"1", ".", "5">>, fb |-> <<"-", "2", "e", "9">>]
 TCNumChars == {"-", "0", "1", "2", "5", "9", "n", "a", "i", "f", ".", "e"}   \* the letter of string cells is "x"
 TCIntToks  == {"min", "m1", "z", "p1", "max"}
 TCFltToks  == {"nan", "pinf", "ninf", "pz", "nz", "fa", "fb"}
-TCTokOf(run, k) ==                                   \* what scanf makes of a run of number characters
-    LET cand == IF k = "f" THEN TCFltToks ELSE TCIntToks
-    IN IF \E x \in cand : TCNumText[x] = run THEN CHOOSE x \in cand : TCNumText[x] = run ELSE "garbage"
+\* what scanf makes of a run of number characters.  |min| = max + 1 ("10" after "9") does not fit:
+\* the conversions of the 1-, 2- and 4-byte integers wrap it round to min, strtol clamps the 8-byte one to max.
+TCTokOf(run, fld) ==
+    LET cand == IF fld.k = "f" THEN TCFltToks ELSE TCIntToks
+    IN IF \E x \in cand : TCNumText[x] = run THEN CHOOSE x \in cand : TCNumText[x] = run
+       ELSE IF fld.k = "i" /\ run = <<"1", "0">> THEN (IF fld.w < 8 THEN "min" ELSE "max")
+       ELSE "garbage"
 
 \* ---- writer: WriteRows / WriteField / WriteStringAsAscii / WriteNumberAsAscii ----------
 TCPad(e, w)       == e \o [i \in 1..(w - Len(e)) |-> "nul"]
@@ -159,15 +164,15 @@ TCFail(p)   == [ok |-> FALSE, val |-> "error", pos |-> p]
 TCWsMode(dc, reader) == dc = "space" \/ reader = "fixed"
 
 \* one fscanf(fp, mScanFormats[type]) of scan_column_values, with its fall-back
-TCScanNum(f, p, k, dc, reader) ==
+TCScanNum(f, p, fld, dc, reader) ==
     LET p1 == TCSkipWS(f, p, dc)                                 \* %d skips leading white space, newlines included
     IN IF p1 > Len(f) THEN TCFail(p1)                            \* EOF
        ELSE IF f[p1] \notin TCNumChars THEN                      \* matching failure
-            IF dc # "space" /\ f[p1] = "dl" /\ k = "f"
+            IF dc # "space" /\ f[p1] = "dl" /\ fld.k = "f"
             THEN TCGot("nan", p1 + 1)                            \* empty field -> nan (fgetc took the delimiter)
             ELSE TCFail(p1)
        ELSE LET p2 == TCEndRun(f, p1)
-                v  == TCTokOf(SubSeq(f, p1, p2 - 1), k)
+                v  == TCTokOf(SubSeq(f, p1, p2 - 1), fld)
             IN IF reader = "fixed" THEN TCGot(v, p2 + 1)         \* number, then exactly one character
                ELSE IF dc = "space" THEN TCGot(v, p2)            \* "%d"; the caller does one fgetc per field
                ELSE LET p3 == TCSkipWS(f, p2, dc)                \* the ' ' directive (and '\t' when it is the delimiter)
@@ -184,7 +189,7 @@ TCStripNul(s) == IF s # <<>> /\ s[Len(s)] = "nul" THEN TCStripNul(SubSeq(s, 1, L
 RECURSIVE TCReadElems(_, _, _, _, _, _, _)
 TCReadElems(fld, n, f, p, dc, reader, acc) ==
     IF n = 0 THEN TCGot(acc, p)
-    ELSE LET r == IF TCIsStr(fld) THEN TCReadStr(f, p, fld.w) ELSE TCScanNum(f, p, fld.k, dc, reader)
+    ELSE LET r == IF TCIsStr(fld) THEN TCReadStr(f, p, fld.w) ELSE TCScanNum(f, p, fld, dc, reader)
          IN IF ~r.ok THEN TCFail(r.pos)
             ELSE LET v == IF TCIsStr(fld) THEN TCStripNul(r.val) ELSE r.val
                  IN TCReadElems(fld, n - 1, f, r.pos, dc, reader, acc \o <<v>>)
